@@ -66,8 +66,9 @@ def _check_inv(ctx, t, where):
     ctx.check(t._flight_size >= 0, where + "-flight-size-non-negative")
 
 
-def _sym_sender(ctx, env, q, nout):
-    """Arbitrary sender state under the representation invariant."""
+def _sym_sender(ctx, env, q, nout, pr=False):
+    """Arbitrary sender state under the representation invariant.  pr: the q outstanding chunks
+    are the fragments of one partially reliable message (maxRetransmits = 0) instead of q messages."""
     base = ctx.int("base_tsn", 0, U32)
     t = env.transport("controlling", established=True, local_tsn=base, remote_tsn=77)
     sentlog = []
@@ -88,6 +89,12 @@ def _sym_sender(ctx, env, q, nout):
         c._misses = ctx.int("misses%d" % i, 0, 2)
         c._sent_count = ctx.int("sent_count%d" % i, 1, 3)
         ctx.assume(sx.Not(sx.And(c._acked, c._retransmit)), "Inv: a gap-acked chunk is not marked for retransmission")
+        if pr:
+            c.flags = (2 if i == 0 else 0) | (1 if i == q - 1 else 0)
+            c.stream_id = 3
+            c._max_retransmits = 0
+            c._sent_count = 1  # (a second transmission would already have abandoned it)
+            c._retransmit = False
         chunks.append(c)
     if q:
         ctx.assume(sx.Not(chunks[0]._acked), "Inv: the earliest outstanding chunk is not gap-acked (gap blocks start beyond the cumulative TSN + 1)")
